@@ -23,6 +23,11 @@ int main(int argc, char** argv) {
     else if (fn == "VectorTools__sumExp_w") { expect = v1.size() != v2.size() || v1.empty(); VectorTools::sumExp(v1, v2); }
     else if (fn == "VectorTools__max") { expect = v.empty(); VectorTools::max(v); }
     else if (fn == "VectorTools__min") { expect = v.empty(); VectorTools::min(v); }
+    else if (fn == "VectorTools__whichMaxAll") { expect = v.empty(); VectorTools::whichMaxAll(v); }
+    else if (fn == "VectorTools__whichMinAll") { expect = v.empty(); VectorTools::whichMinAll(v); }
+    else if (fn == "VectorTools__containsAll") { bool r = VectorTools::containsAll(v1, v2); CHECK_POST(!v2.empty() || r); CHECK_POST(!(v1.empty() && !v2.empty()) || !r); }
+    else if (fn == "VectorTools__diff") { vector<double> v3 = vec("v3"); size_t n3 = v3.size(); for (size_t i = 0; i < v2.size(); ++i) v2[i] = -double(i + 1);   /* disjoint operands */
+      VectorTools::diff(v1, v2, v3); cout << "|v3| " << n3 << " -> " << v3.size() << endl; CHECK_POST(v3.size() == n3 + v1.size()); }
     else known = false;
   } catch (bpp::Exception& e) { raised = true; what = e.what(); }
   if (!known) { cout << "no native check for " << fn << endl; return 3; }
